@@ -174,6 +174,11 @@ class Outcome:
                     self.samples.append(_shrink_sample(job))
             else:
                 self.clauses[v] = self.clauses.get(v, 0) + 1
+                vc = getattr(importlib.import_module(modname), "vclass", None)
+                if vc:
+                    key = v + "|" + vc(job, t, at)
+                    self.extra.setdefault("rejected_by_class", {})
+                    self.extra["rejected_by_class"][key] = self.extra["rejected_by_class"].get(key, 0) + 1
                 rejected.append((t, v, at, job))
         if rejected:
             self._classify(modname, trace_module, rejected)
